@@ -16,11 +16,8 @@ import (
 )
 
 func backgroundCompaction(db *DB) {
-	defer func() {
-		db.doneCompactionChannel <- true
-	}()
-
 	if !db.enableCompactions {
+		db.doneCompactionChannel <- true
 		return
 	}
 
@@ -50,8 +47,12 @@ func backgroundCompaction(db *DB) {
 	}(db)
 
 	if err != nil {
+		// this must stop the process right away: behind a deferred send on the done channel the panic would be parked
+		// until Close(), and could get lost when the process ends right after it
 		log.Panicf("error while compacting, error was %v", err)
 	}
+
+	db.doneCompactionChannel <- true
 }
 
 func executeCompaction(db *DB) (compactionMetadata *proto.CompactionMetadata, err error) {
